@@ -91,16 +91,230 @@ def stat_oracle(kernel, method, seed_type, n_seeds, rng, shape=1.0, refit_from=N
     return None
 
 
+def features_direct(W, b, shape, method, Z):
+    """random Fourier features of the rows of Z from the fitted frequencies W (n_features x D) and phases b, written out
+    from the definition (nothing of the code under test is called)"""
+    Z = np.asarray(Z, dtype=float)
+    D = W.shape[1]
+    arg = np.sqrt(2 * shape) * (Z @ W)
+    if method == 'weight_only':
+        return np.hstack((np.cos(arg), np.sin(arg))) / np.sqrt(D), 1.0 + float(np.max(np.abs(arg)))
+    return np.sqrt(2.0 / D) * np.cos(arg + b), 1.0 + float(np.max(np.abs(arg)))
+
+
+SPECIAL_KINDS = ['generic', 'unforced episode', 'single row, u = 0', 'all-zero batch', 'single all-zero row', 'zero state, forced',
+                 'one zero row among generic rows', 'repeated rows', 'repeated row with u = 0', 'u = -0.0', 'constant input',
+                 'one input column zero', 'input zero except last row', 'tiny input', 'integer-valued, u = 0',
+                 'unforced episode among forced episodes', 'all episodes unforced']
+
+
+def special_batch(kind, nx, nu, rng, rs):
+    """-> (Z, ep): rows [x, u] and an episode index per row; the INPUT columns (or whole rows) take special values. With
+    nu = 0 the input-related kinds degenerate to statements about the state alone, which are still checked."""
+    m = rng.randint(2, 7)
+    Z = rs.uniform(-1, 1, (m, nx + nu))
+    ep = np.zeros(m)
+    if kind == 'unforced episode':
+        Z[:, nx:] = 0.0
+    elif kind == 'single row, u = 0':
+        Z = Z[:1].copy()
+        Z[:, nx:] = 0.0
+        ep = ep[:1]
+    elif kind == 'all-zero batch':
+        Z[:] = 0.0
+    elif kind == 'single all-zero row':
+        Z = np.zeros((1, nx + nu))
+        ep = ep[:1]
+    elif kind == 'zero state, forced':
+        Z[:, :nx] = 0.0
+    elif kind == 'one zero row among generic rows':
+        Z[rng.randrange(m)] = 0.0
+    elif kind == 'repeated rows':
+        Z[:] = Z[0]
+    elif kind == 'repeated row with u = 0':
+        Z[:] = Z[0]
+        Z[:, nx:] = 0.0
+    elif kind == 'u = -0.0':
+        Z[:, nx:] = -0.0
+    elif kind == 'constant input':
+        Z[:, nx:] = rng.choice([1.0, -1.0, 0.5])
+    elif kind == 'one input column zero':
+        if nu:
+            Z[:, nx + rng.randrange(nu)] = 0.0
+    elif kind == 'input zero except last row':
+        Z[:-1, nx:] = 0.0
+    elif kind == 'tiny input':
+        Z[:, nx:] = rng.choice([5e-324, 1e-300, -1e-200, 1e-17])
+    elif kind == 'integer-valued, u = 0':
+        Z = rs.randint(-2, 3, (m, nx + nu)).astype(rng.choice(['int64', 'int32', 'float64']))
+        Z[:, nx:] = 0
+    elif kind in ('unforced episode among forced episodes', 'all episodes unforced'):
+        lens = [rng.randint(1, 4) for _ in range(rng.randint(2, 4))]
+        Z = rs.uniform(-1, 1, (sum(lens), nx + nu))
+        ep = np.repeat(np.arange(len(lens), dtype=float), lens)
+        free = set(range(len(lens))) if kind == 'all episodes unforced' else {rng.randrange(len(lens))}
+        for e in free:
+            Z[ep == e, nx:] = 0.0
+    return Z, ep
+
+
+def special_batches(ctx, n_cases):
+    """DATA-VALUE forms: KernelApproxLiftingFn / RandomFourierKernelApprox applied to batches whose input columns are exactly
+    zero or otherwise special. Whatever the values in the batch, the output is [x, u, z([x; u])] row by row, z computed here
+    from random_weights_ / random_offsets_; weight_only blocks have unit norm."""
+    rng = ctx.rng
+    for i in range(n_cases):
+        nx = rng.randint(1, 3)
+        nu = rng.choice([0, 1, 1, 1, 2, 2, 3])
+        kernel, method = rng.choice(KERNELS), rng.choice(['weight_offset', 'weight_only'])
+        shape = rng.choice([0.25, 1.0, 2.5])
+        D = rng.choice([1, 2, 5, 16, 64])
+        seed_type, seed = rng.choice(['int', 'instance']), rng.randint(0, 10 ** 6)
+        fit_ep = rng.random() < 0.5
+        rs = np.random.RandomState(rng.randint(0, 2 ** 31 - 1))
+        cfg = {'nx': nx, 'nu': nu, 'kernel': kernel, 'method': method, 'shape': shape, 'D': D, 'seed_kind': seed_type,
+               'seed': seed, 'fitted_with_episode_feature': fit_ep}
+
+        def make():
+            return pykoop.KernelApproxLiftingFn(kernel_approx=pykoop.RandomFourierKernelApprox(
+                kernel_or_ft=kernel, n_components=D, shape=shape, method=method,
+                random_state=seed if seed_type == 'int' else np.random.RandomState(seed)))
+
+        Xtr = rs.uniform(-1, 1, (rng.randint(2, 6), nx + nu))
+        if fit_ep:
+            Xtr = np.hstack((np.zeros((Xtr.shape[0], 1)), Xtr))
+        lf = make().fit(Xtr, n_inputs=nu, episode_feature=fit_ep)
+        pipe = pykoop.KoopmanPipeline(lifting_functions=[('ka', make())], regressor=None)
+        pipe.fit_transformers(Xtr, n_inputs=nu, episode_feature=fit_ep)
+        kinds = ['unforced episode', 'single row, u = 0'] + rng.sample(SPECIAL_KINDS, 5)
+        for kind in kinds:
+            Z, ep = special_batch(kind, nx, nu, rng, rs)
+            Zf = np.asarray(Z, dtype=float)
+            Zep = np.hstack((ep.reshape(-1, 1), Zf)).astype(Z.dtype if Z.dtype.kind == 'i' else float)
+            multi = len(set(ep.tolist())) > 1
+            case = dict(cfg, batch=kind, Z=Zf.tolist(), episodes=ep.tolist(), dtype=str(Z.dtype))
+            ctx.count('special batch: ' + kind + (' (n_inputs = 0)' if nu == 0 else ''))
+            ctx.record_case({k: v for k, v in case.items() if k not in ('Z', 'episodes')} | {'rows': Zf.shape[0]}, True)
+            # routes: (name, fitted object, call) -> rows without the episode feature, [x, u, features] or the input block
+            routes = []
+            if fit_ep:
+                routes.append(('transform', lf, lambda o: o.transform(Zep)[:, 1:], 'full'))
+                routes.append(('lift(episode_feature=True)', lf, lambda o: o.lift(Zep, episode_feature=True)[:, 1:], 'full'))
+                routes.append(('lift_input(default episode feature)', lf, lambda o: o.lift_input(Zep)[:, 1:], 'input'))
+                if not multi:
+                    routes.append(('lift(episode_feature=False)', lf, lambda o: o.lift(Z, episode_feature=False), 'full'))
+                    routes.append(('lift_input(episode_feature=False)', lf, lambda o: o.lift_input(Z, episode_feature=False), 'input'))
+            else:
+                routes.append(('lift(episode_feature=True)', lf, lambda o: o.lift(Zep, episode_feature=True)[:, 1:], 'full'))
+                routes.append(('lift_input(episode_feature=True)', lf, lambda o: o.lift_input(Zep, episode_feature=True)[:, 1:], 'input'))
+                if not multi:
+                    routes.append(('transform', lf, lambda o: o.transform(Z), 'full'))
+                    routes.append(('lift(default episode feature)', lf, lambda o: o.lift(Z), 'full'))
+                    routes.append(('lift_input(episode_feature=False)', lf, lambda o: o.lift_input(Z, episode_feature=False), 'input'))
+            routes.append(('lift_state(episode_feature=True)', lf, lambda o: o.lift_state(Zep[:, :1 + nx], episode_feature=True)[:, 1:], 'state'))
+            routes.append(('KoopmanPipeline.lift(episode_feature=True)', pipe, lambda o: o.lift(Zep, episode_feature=True)[:, 1:], 'full'))
+            routes.append(('KoopmanPipeline.lift_input(episode_feature=True)', pipe,
+                           lambda o: o.lift_input(Zep, episode_feature=True)[:, 1:], 'input'))
+            if Zf.shape[0] >= 2:
+                # fitted on the special batch itself (fit only reads its shape)
+                own = make()
+                routes.append(('fit_transform', own, lambda o: o.fit_transform(Zep, n_inputs=nu, episode_feature=True)[:, 1:], 'full'))
+            routes.append(('kernel_approx_.transform', lf, lambda o: o.kernel_approx_.transform(Z), 'features'))
+            for name, obj, call, what in routes:
+                got = np.asarray(call(obj), dtype=float)
+                ka = (obj.lifting_functions_[0][1] if obj is pipe else obj).kernel_approx_
+                W, b = ka.random_weights_, ka.random_offsets_
+                if W.shape != (nx + nu, D) or (method == 'weight_offset' and np.shape(b) != (D,)):
+                    ctx.mismatch('fitted weights / offsets of the kernel lifting function have unexpected shapes', case,
+                                 [list(np.shape(W)), list(np.shape(b))], [[nx + nu, D], [D]])
+                    continue
+                feats, amp = features_direct(W, b, shape, method, Zf)
+                if what == 'state':
+                    # lift_state: the state, followed by the features of the state alone only when there is no input
+                    want = Zf[:, :nx] if nu else np.hstack((Zf, feats))
+                    lead = nx
+                elif what == 'input':
+                    want = np.hstack((Zf[:, nx:], feats)) if nu else np.zeros((Zf.shape[0], 0))
+                    lead = nu
+                elif what == 'features':
+                    want, lead = feats, 0
+                else:
+                    want, lead = np.hstack((Zf, feats)), nx + nu
+                tags = {'part': 'special batch', 'batch': kind, 'route': name.split('(')[0]}
+                if got.shape != want.shape:
+                    ctx.fail(f'{name} of a batch of kind "{kind}" ({Zf.shape[0]} rows, nx={nx}, nu={nu}) has shape {list(got.shape)}, '
+                             f'expected {list(want.shape)} (original columns, then one feature block)', dict(case, route=name), tags)
+                    continue
+                if not np.array_equal(got[:, :lead], want[:, :lead]):
+                    ctx.fail(f'{name} of a batch of kind "{kind}": the leading columns are not the original state / input',
+                             dict(case, route=name), tags)
+                    continue
+                if want.shape[1] == lead:
+                    continue
+                blk, wblk = got[:, lead:], want[:, lead:]
+                if not np.allclose(blk, wblk, rtol=1e-10, atol=1e-13 * amp):
+                    dev = float(np.max(np.abs(blk - wblk)))
+                    ctx.fail(f'{name} of a batch of kind "{kind}" ({kernel}/{method}, shape={shape}, D={D}, nx={nx}, nu={nu}, '
+                             f'{Zf.shape[0]} rows): the appended block is not the random Fourier features z([x; u]) computed from '
+                             f'random_weights_ / random_offsets_ (max deviation {dev:.3g}; block norms '
+                             f'{np.linalg.norm(blk, axis=1)[:3].round(6).tolist()}, expected {np.linalg.norm(wblk, axis=1)[:3].round(6).tolist()})',
+                             dict(case, route=name, got=blk.tolist(), expected=wblk.tolist()), tags)
+                    continue
+                if method == 'weight_only' and not np.allclose(np.sum(blk ** 2, axis=1), 1.0, rtol=1e-12):
+                    ctx.fail(f'{name} of a batch of kind "{kind}": weight_only feature vectors do not have unit norm',
+                             dict(case, route=name), tags)
+
+
+def special_kernel_estimate(ctx, n_cases):
+    """the property itself on special batches: inner products of the block appended by KernelApproxLiftingFn estimate the
+    named kernel of the difference of the [x; u] rows within 6 / sqrt(D) (several standard deviations; independent draws:
+    RandomState seeds, or weight_only), also when the input is identically zero"""
+    rng = ctx.rng
+    for i in range(n_cases):
+        nx, nu = rng.randint(1, 2), rng.randint(1, 2)
+        kernel = KERNELS[i % 3]
+        method = rng.choice(['weight_offset', 'weight_only'])
+        shape = rng.choice([0.25, 1.0])
+        D = 1024
+        seed = rng.randint(0, 10 ** 6)
+        rs = np.random.RandomState(rng.randint(0, 2 ** 31 - 1))
+        lf = pykoop.KernelApproxLiftingFn(kernel_approx=pykoop.RandomFourierKernelApprox(
+            kernel_or_ft=kernel, n_components=D, shape=shape, method=method, random_state=np.random.RandomState(seed)))
+        lf.fit(rs.uniform(-1, 1, (4, nx + nu)), n_inputs=nu)
+        for kind in ('unforced episode', 'generic', 'single row, u = 0', 'repeated row with u = 0', 'all-zero batch'):
+            Z, _ = special_batch(kind, nx, nu, rng, rs)
+            for name, F in (('transform', lf.transform(Z)[:, nx + nu:]),
+                            ('lift_input', lf.lift_input(Z, episode_feature=False)[:, nu:])):
+                ctx.count('special batch: kernel estimate')
+                K = F @ F.T
+                Kt = np.array([[kernel_value(kernel, shape, a - c) for c in Z] for a in Z])
+                err = float(np.max(np.abs(K - Kt))) if K.shape == Kt.shape else float('inf')
+                case = {'kernel': kernel, 'method': method, 'shape': shape, 'D': D, 'seed': seed, 'seed_kind': 'instance', 'nx': nx,
+                        'nu': nu, 'batch': kind, 'Z': Z.tolist(), 'route': name}
+                ctx.record_case({k: v for k, v in case.items() if k != 'Z'}, True)
+                if err > 6 / np.sqrt(D):
+                    ctx.fail(f'{name} of a batch of kind "{kind}" ({kernel}/{method}, shape={shape}, D={D}): inner products of the '
+                             f'appended features are {err:.3g} away from the kernel of the row differences (bound {6 / np.sqrt(D):.3g})',
+                             case, {'part': 'special batch', 'batch': kind, 'route': name, 'what': 'kernel estimate'})
+
+
 def run(ctx):
     ctx.rule = ('(a) fitted RandomFourierKernelApprox (kernels x methods x shapes x 1..4 features x 1..16 components x int / '
                 'RandomState seeds): transform vs the Lean Float evaluation of the feature-map formula given the fitted '
                 '(W, b) (rel 1e-12; absolute 1e-14 x the size of the cosine argument, which heavy-tailed Cauchy weights make large), output width, kernel-name -> sampling-distribution table, unit norm for weight_only; '
                 '(b) stream model: which draws coincide with a replay of RandomState(seed); (c) KernelApproxLiftingFn '
-                'layout; (d) statistical oracle, seeded and fixed-size: mean estimate over many seeds vs closed-form kernel')
+                'layout; (d) statistical oracle, seeded and fixed-size: mean estimate over many seeds vs closed-form kernel; '
+                '(e) data-value forms: KernelApproxLiftingFn (n_inputs 0..3, with / without episode feature) and its estimator on batches '
+                'whose input columns are exactly zero (unforced episode, single row with u = 0, -0.0, one unforced episode among forced ones), '
+                'all-zero / repeated / integer-valued rows, constant or tiny inputs: transform, lift, lift_input, lift_state, fit_transform '
+                'and a KoopmanPipeline around it must return [x, u, z([x; u])] with z computed here from random_weights_ / random_offsets_ '
+                '(rel 1e-10), unit norm for weight_only, and with D = 1024 the inner products of the appended block within 6/sqrt(D) of the kernel')
     ctx.explanation = ('level "other": exact identities, layout and the stream model are theorems (C17_*); the feature-map formula '
                        'is tied to the code by a Float correspondence; the kernel means (all three named kernels, any dimension), '
                        'unbiasedness over the offset and the O(1/sqrt(D)) concentration are theorems GIVEN independent draws from '
-                       'the named distributions; that scipy samplers deliver those is trusted / checked statistically only')
+                       'the named distributions; that scipy samplers deliver those is trusted / checked statistically only; '
+                       'that the lifting function appends the features of [x; u] for EVERY batch (no branch on the values in the '
+                       'batch, e.g. an input that is identically zero) is checked by a direct oracle on special-valued batches')
     ctx.assumptions = ['scipy.stats samplers have the named distributions (norm / cauchy / laplace / uniform)', 'successive draws are independent (false for integer seeds: finding F-rff)']
     ctx.proof_obligations('Properties.C17', THEOREMS)
     drv = ctx.get_driver()
@@ -186,6 +400,9 @@ def run(ctx):
         want = (nx + feats.shape[1], 0) if nu == 0 else (nx, nu + feats.shape[1])
         if (lf.n_states_out_, lf.n_inputs_out_) != want:
             ctx.fail('kernel features are not declared in the block C02 says', {'nx': nx, 'nu': nu}, {'part': 'layout'})
+    # data-value forms: special batches (zero input columns, zero / repeated rows, ...) through every route
+    special_batches(ctx, ctx.n(40, 400))
+    special_kernel_estimate(ctx, ctx.n(6, 36))
     # statistical oracle
     n_seeds = 300 if ctx.tier == 'quick' else 1500
     for kernel in KERNELS:
